@@ -1,7 +1,7 @@
 #!/bin/bash
-# usage: tools_verify_seed_par.sh <worktree> ; 3-way confirmation of <worktree>/seed/{patch,demo}.diff inside that scratch worktree
+# usage: tools_verify_seed_par.sh <worktree> [subdir] ; 3-way confirmation of <worktree>/seed/{patch,demo}.diff inside that scratch worktree
 W=$1
-S=$W/seed
+S=$W/seed${2:+/$2}
 cd $W || exit 1
 export CARGO_NET_OFFLINE=true
 clean() { git reset -q ; git checkout -q -- . ; git clean -fdq -e target -e seed ; }
@@ -12,4 +12,4 @@ B=$(git apply --check $S/demo.diff 2>&1 && echo demo-ok)
 git apply $S/patch.diff; RA=$(run); clean
 git apply $S/demo.diff; RC=$(run); clean
 git apply $S/patch.diff; git apply $S/demo.diff 2>/dev/null || git apply --3way $S/demo.diff 2>/dev/null; RB=$(run); clean
-echo "$(basename $W) | $A $B | defect-only: $RA | demo-only: $RC | both: $RB"
+echo "$(basename $W)${2:+-$2} | $A $B | defect-only: $RA | demo-only: $RC | both: $RB"
